@@ -667,7 +667,7 @@ func (t *Terminal) handleKey(key rune) (line []string, ok bool) {
 			t.cursorX = 0
 			// replace line break with a space (the line feed of LF CR has
 			// left it already)
-			if !afterLF {
+			if !(afterLF && len(t.line) > 0 && t.line[len(t.line)-1] == '\n') {
 				t.addKeyToLine('\n')
 			}
 			t.queue([]rune("\r\n"))
